@@ -65,7 +65,8 @@ Eval(c) ==
                              syn |-> [nm \in SynNames |-> [pairs |-> FullPairs(SynTables[nm]),
                                                            starts |-> [i \in DOMAIN SynTables[nm].starts |-> CodonWord(SynTables[nm].starts[i])]]],
                              probes |-> BadProbes, loadkeys |-> LoadKeys, probeDna |-> ProbeDna,
-                             forms |-> <<CodonCodeForms, AaCodeForms, MapForms>>]
+                             forms |-> <<CodonCodeForms, AaCodeForms, MapForms>>,
+                             missing |-> [v \in {"noAAA", "noTTT", "noCTG", "noTwo", "empty"} |-> CodonWord(FirstMissing(CtorVariants[v].pairs))]]
     [] c[1] = "pin"   -> Proj(LoadImpl(RealText, <<"id", 1>>))
 
 Compute == phase = 0 /\ phase' = 1 /\ res' = Eval(inp) /\ UNCHANGED inp
@@ -98,7 +99,11 @@ InvTable ==
     /\ (IsOk(r) /\ inp[2][1] = "map") => r.val.starts = TableOf(inp[2][2]).val.starts
     /\ (inp[2][1] = "starts" /\ inp[2][3] \in BadStarts) => ~IsOk(r)
     /\ (inp[2][1] = "map" /\ inp[2][3] \in BadMaps) => ~IsOk(r)
-InvCtor == Done("ctor") => Law_Ctor(CtorVariants[inp[2]].pairs, CtorVariants[inp[2]].starts)
+InvCtor ==
+  Done("ctor") => /\ Law_Ctor(CtorVariants[inp[2]].pairs, CtorVariants[inp[2]].starts)
+                  \* the codon the error message names: the first missing one in number order
+                  /\ (inp[2] = "noTwo" => FirstMissing(CtorVariants[inp[2]].pairs) = 5)
+                  /\ (inp[2] = "empty" => FirstMissing(CtorVariants[inp[2]].pairs) = 0)
 \* the file's table 1 is the standard genetic code; the default table is it with ATG as only start codon
 InvPin ==
   Done("pin") => /\ res = [oc |-> "ok", aa |-> StdAA, starts |-> StdStarts]
